@@ -8,8 +8,11 @@
 (*         via "direct" (the service object, under a deadline) or "net"    *)
 (*         (the real gRPC / REST listeners), with                          *)
 (*           res     ok | reject | panic | blocked                         *)
-(*           onKind  for a blocked call: mutex | rwmutex | other (from the *)
-(*                   goroutine dump: blocked on a lock, or just slow)      *)
+(*           onKind  for a blocked call, from the goroutine dump: mutex |  *)
+(*                   rwmutex | chan | parked (the handler is parked) or    *)
+(*                   other (no parked handler found: not a verdict)        *)
+(*           stage   where a panic was caught: handler (inside the         *)
+(*                   recovery interceptor) | interceptor (outside)         *)
 (*           probes  later calls on the same and on other endpoints        *)
 (*           free    TryLock observations of the daemon's own mutexes      *)
 (*           loop    the beacon loops still produce rounds                 *)
@@ -35,16 +38,20 @@ tvars == <<st, steps, last, ns, lk, th, nxt, l, alarms>>
 
 Range(s) == {s[k] : k \in DOMAIN s}
 
-CallOf(e) == [ep |-> e.ep, id |-> e.id, hash |-> e.hash, gm |-> e.gm, body |-> e.body]
+CallOf(e) == [ep |-> e.ep, id |-> e.id, hash |-> e.hash, gm |-> e.gm, body |-> e.body, ver |-> e.ver]
 
 Alarm(mon, e, extra) ==
   [mon |-> mon, line |-> l, ns |-> e.ns, via |-> e.via, ep |-> e.ep, id |-> e.id, hash |-> e.hash, gm |-> e.gm,
    body |-> e.body, shape |-> e.shape, res |-> e.res, on |-> e.on, detail |-> extra, cls |-> "-"]
 
 ObsClass(res) == CASE res \in {"ok", "reject"} -> "done" [] res = "panic" -> "panic" [] res = "blocked" -> "stuck" [] OTHER -> "?"
+\* a panic that the harness caught in the version validators is one that nothing catches on the real listener
+ObsOf(e) == IF e.res = "panic" /\ e.stage = "interceptor" THEN "crash" ELSE ObsClass(e.res)
+\* what the goroutine dump shows about a call that did not return: parked in the handler (on a lock, a channel, ...)
+ParkedKinds == {"mutex", "rwmutex", "chan", "parked"}
 
 BlockedProbes(e) == {p \in Range(e.probes) : p.res = "blocked"}
-ProbeCall(p) == [ep |-> p.ep, id |-> p.id, hash |-> p.hash, gm |-> p.gm, body |-> p.body]
+ProbeCall(p) == [ep |-> p.ep, id |-> p.id, hash |-> p.hash, gm |-> p.gm, body |-> p.body, ver |-> "none"]
 
 TraceInit == /\ ns = "fresh" /\ st = EmptyState({}) /\ steps = 0 /\ last = [kind |-> "init"]
              /\ lk = FreeLocks /\ th = [t \in {} |-> 0] /\ nxt = 1
@@ -53,12 +60,12 @@ TraceInit == /\ ns = "fresh" /\ st = EmptyState({}) /\ steps = 0 /\ last = [kind
 StepCall(e) ==
   /\ e.ev = "Call"
   /\ LET c == CallOf(e)
-         known == c \in Calls /\ WellFormed(c) /\ e.ns \in NodeStates
+         known == KnownCall(c) /\ e.ns \in NodeStates
          o == Outcome(e.ns, c)
          direct == e.via = "direct"
          \* ---- conformance (model drift)
          C0 == IF ~known THEN {Alarm("Conformance", e, "request class unknown to the specification")} ELSE {}
-         C1 == IF known /\ direct /\ ObsClass(e.res) # o.res
+         C1 == IF known /\ direct /\ ObsOf(e) # o.res
                  THEN {Alarm("Conformance", e, "outcome differs from the specification's program")} ELSE {}
          C2 == IF known /\ ~direct /\ ((e.res = "blocked") # (o.res = "stuck"))
                  THEN {Alarm("Conformance", e, "outcome on the listener differs from the specification's program")} ELSE {}
@@ -70,15 +77,24 @@ StepCall(e) ==
          C5 == IF known /\ direct /\ e.res = "blocked" /\ o.res = "stuck" /\ e.onKind \notin {"mutex", "rwmutex"}
                  THEN {Alarm("Conformance", e, "blocked, but not on a lock")} ELSE {}
          \* ---- monitors on what was observed
-         M1 == IF ~Responds(ObsClass(e.res))
-                 THEN {Alarm("Responds", e, IF e.onKind \in {"mutex", "rwmutex"} THEN "blocked-on-lock" ELSE "no-answer-within-deadline")} ELSE {}
-         M2 == IF \E p \in Range(e.probes) : ~StillServes(ObsClass(p.res))
+         \* a call that did not return is a verdict only when the goroutine dump shows its handler parked
+         M1 == IF ~Responds(ObsClass(e.res)) /\ e.onKind \in ParkedKinds
+                 THEN {Alarm("Responds", e, CASE e.onKind \in {"mutex", "rwmutex"} -> "blocked-on-lock"
+                                               [] e.onKind = "chan" -> "parked-on-channel"
+                                               [] OTHER -> "parked")} ELSE {}
+         H1 == IF ~Responds(ObsClass(e.res)) /\ e.onKind \notin ParkedKinds
+                 THEN {Alarm("Harness", e, "no answer within the deadline, but the goroutine dump does not show a parked handler")} ELSE {}
+         M2 == IF \E p \in Range(e.probes) : ~StillServes(ObsClass(p.res)) /\ p.onKind \in ParkedKinds
                  THEN {Alarm("StillServes", e, IF e.res = "blocked" THEN "after-blocked-call" ELSE "after-returned-call")} ELSE {}
-         M3 == IF e.res # "blocked" /\ \E f \in Range(e.free) : ~f[2]
+         H2 == IF \E p \in Range(e.probes) : ~StillServes(ObsClass(p.res)) /\ p.onKind \notin ParkedKinds
+                 THEN {Alarm("Harness", e, "a probe got no answer within the deadline, but the goroutine dump does not show it parked")} ELSE {}
+         M3 == IF \E f \in Range(e.free) : ~f[2]
                  THEN {Alarm("NoLockLeft", e, (CHOOSE f \in Range(e.free) : ~f[2])[1])} ELSE {}
          M4 == IF ~e.loop THEN {Alarm("LoopAlive", e, "a beacon loop stopped producing rounds")} ELSE {}
          M5 == IF ~e.alive THEN {Alarm("ProcessAlive", e, "the process does not answer on its listeners any more")} ELSE {}
-     IN alarms' = alarms \cup C0 \cup C1 \cup C2 \cup C3 \cup C4 \cup C5 \cup M1 \cup M2 \cup M3 \cup M4 \cup M5
+         M6 == IF ~ProcessAlive(ObsOf(e))
+                 THEN {Alarm("ProcessAlive", e, "panic-outside-the-recovery-interceptor")} ELSE {}
+     IN alarms' = alarms \cup C0 \cup C1 \cup C2 \cup C3 \cup C4 \cup C5 \cup M1 \cup H1 \cup M2 \cup H2 \cup M3 \cup M4 \cup M5 \cup M6
 
 \* a request concurrent with an internal event of the daemon (gated replay of the Conc machine)
 ConcAlarm(mon, e, cls, extra) ==
@@ -87,7 +103,7 @@ ConcAlarm(mon, e, cls, extra) ==
 StepConc(e) ==
   /\ e.ev = "Conc"
   /\ LET c == CallOf(e)
-         known == c \in Calls /\ WellFormed(c) /\ e.ns \in NodeStates
+         known == KnownCall(c) /\ e.ns \in NodeStates
          ie == [ev |-> e.event, x |-> e.x]
          pred == CanDeadlock(e.ns, c, ie)
          obs == e.res = "blocked" \/ e.t2 = "blocked"
